@@ -187,6 +187,55 @@ def run(run: common.Run):
     run_writes(run, rng, quick, idx)
 
 
+def typed_writes(run):
+    """
+    Blocks of one integer type written into datasets of another: reading the window back returns the block's values clipped into
+    the dataset's range (never wrapped), each at its own location, inside window ∩ dataset only.
+    """
+    from homonim.raster_array import RasterArray
+    n, m = 5, 6
+    g = rasters.Grid(8 * 3000, 8 * 5000, 16, 16, m, n)
+    k = 0
+    for sdt, ddt in (('uint16', 'int16'), ('uint16', 'uint8'), ('uint8', 'int8'), ('int16', 'uint16'), ('int8', 'uint8'),
+                     ('int32', 'int16'), ('int16', 'int8'), ('uint8', 'uint16')):
+        si, di = np.iinfo(sdt), np.iinfo(ddt)
+        pool = [v for v in (si.min, si.min + 1, -200, -54, -1, 1, 2, 100, 127, 128, 200, 255, 256, 300, 32767, 32768, 33465, 65535,
+                            si.max - 1, si.max) if si.min <= v <= si.max and v != 0]
+        for (r0, c0, rl, cl), w in (((0, 0, n, m), None), ((-1, -2, n + 2, m + 3), None), ((1, 1, 3, 4), (1, 3, 2, 5)),
+                                    ((2, 3, 4, 4), (2, 6, 3, 7))):
+            k += 1
+            case = dict(i=7_000_000 + k, op='typed write', block_dtype=sdt, dataset_dtype=ddt, block=(r0, c0, rl, cl), window=w)
+            barr = np.array([[pool[(r * cl + c) % len(pool)] for c in range(cl)] for r in range(rl)], dtype=sdt)
+            bg = rasters.Grid(g.x0 + c0 * g.px, g.ytop - r0 * g.py, g.px, g.py, cl, rl)
+            ra = RasterArray(barr, rasters.CRS3857, bg.transform, nodata=0)
+            p = run.tmpdir() / 'c20_tw.tif'
+            fill = 7
+            with rio.open(p, 'w', driver='GTiff', width=m, height=n, count=1, dtype=ddt, crs=rasters.CRS3857, transform=g.transform,
+                          nodata=0) as ds:
+                ds.write(np.full((n, m), fill, dtype=ddt), 1)
+                try:
+                    ra.to_rio_dataset(ds, indexes=1, window=None if w is None else Window(w[2], w[0], w[3] - w[2], w[1] - w[0]))
+                except Exception as ex:
+                    run.fail(case, f'write raised {type(ex).__name__}: {str(ex)[:80]}', signature=dict(kind='write-raises'))
+                    continue
+            with rio.open(p) as ds:
+                back = ds.read(1).astype('int64')
+            run.evaluations += 1
+            run.hist['typed writes'] += 1
+            ww = w if w is not None else (r0, r0 + rl, c0, c0 + cl)
+            for r in range(n):
+                for c in range(m):
+                    inwin = ww[0] <= r < ww[1] and ww[2] <= c < ww[3] and 0 <= r - r0 < rl and 0 <= c - c0 < cl
+                    exp = int(np.clip(int(barr[r - r0, c - c0]), di.min, di.max)) if inwin else fill
+                    if back[r, c] != exp:
+                        run.fail(case, f'pixel ({r},{c}) reads back {int(back[r, c])}, expected {exp} (block value '
+                                 f'{int(barr[r - r0, c - c0]) if inwin else None} clipped to {ddt})', signature=dict(kind='typed-write'))
+                        break
+                else:
+                    continue
+                break
+
+
 def mask_writes(run, rng, quick, idx, cases, lines, impls):
     """
     Writes of blocks that hold invalid pixels, into datasets whose validity is an internal mask (nodata None) or a numeric
@@ -345,6 +394,7 @@ def run_writes(run, rng, quick, idx0):
             if len(run.samples) < 8:
                 run.samples.append(dict(case=case, impl=irep[:100]))
     idx = mask_writes(run, rng, quick, idx, cases, lines, impls)
+    typed_writes(run)
     failed = {f['case']['i'] for f in run.failures}
     replies = common.model_batch(lines)
     if replies is None:
